@@ -39,6 +39,7 @@ let ev () =
   match next () with
   | "c" -> Cancel (nat_of_int (nexti ()))
   | "f" -> Fire (nat_of_int (nexti ()))
+  | "r" -> ignore (nexti ()); Reenter
   | t -> failwith ("bad event " ^ t)
 
 let rec rep n f = if n <= 0 then [] else let x = f () in x :: rep (n-1) f
